@@ -309,7 +309,7 @@ func (r *Reader) readFiles(roots []string, opts walkerOpts, ignores []string) bo
 			ignoresBase = append(ignoresBase, ignore)
 		}
 	}
-	fn := func(path string, de os.DirEntry, err error) error {
+	fn := func(path string, de os.DirEntry, err error, isRoot bool) error {
 		if err != nil {
 			return nil
 		}
@@ -320,22 +320,26 @@ func (r *Reader) readFiles(roots []string, opts walkerOpts, ignores []string) bo
 				// A symbolic link to a directory that we follow is a directory
 				isDir = true
 				base := filepath.Base(path)
-				if !opts.hidden && base[0] == '.' && base != "." && base != ".." {
-					return filepath.SkipDir
-				}
-				for _, ignore := range ignoresBase {
-					if ignore == base {
+				// The rules are for what is met during the walk, not for the
+				// root the user has given
+				if !isRoot {
+					if !opts.hidden && base[0] == '.' && base != "." && base != ".." {
 						return filepath.SkipDir
 					}
-				}
-				for _, ignore := range ignoresFull {
-					if ignore == path {
-						return filepath.SkipDir
+					for _, ignore := range ignoresBase {
+						if ignore == base {
+							return filepath.SkipDir
+						}
 					}
-				}
-				for _, ignore := range ignoresSuffix {
-					if strings.HasSuffix(path, ignore) {
-						return filepath.SkipDir
+					for _, ignore := range ignoresFull {
+						if ignore == path {
+							return filepath.SkipDir
+						}
+					}
+					for _, ignore := range ignoresSuffix {
+						if strings.HasSuffix(path, ignore) {
+							return filepath.SkipDir
+						}
 					}
 				}
 				if path != sep {
@@ -356,7 +360,13 @@ func (r *Reader) readFiles(roots []string, opts walkerOpts, ignores []string) bo
 	noerr := true
 	for _, root := range roots {
 		// Walk the other roots even if this one fails
-		err := fastwalk.Walk(&conf, root, fn)
+		// The first entry reported is the root itself
+		atRoot := true
+		err := fastwalk.Walk(&conf, root, func(path string, de os.DirEntry, err error) error {
+			isRoot := atRoot
+			atRoot = false
+			return fn(path, de, err, isRoot)
+		})
 		noerr = noerr && err == nil
 	}
 	return noerr
